@@ -46,8 +46,10 @@ func (ICS20Scenario) Generate(rng *rand.Rand, focus, tier string) kernel.Plan {
 			add("register", rng.Int63n(2))
 		case x < 80:
 			add("toggle")
-		case x < 88:
+		case x < 86:
 			add("param", rng.Int63n(2))
+		case x < 92:
+			add("destroy")
 		default:
 			add("back", rng.Int63n(4))
 		}
@@ -66,6 +68,7 @@ type icsWorld struct {
 	userB      sdk.AccAddress
 	registered bool
 	pairOn     bool
+	destroyed  bool // the registered pair's contract no longer exists (self-destructed)
 	aggOn      bool
 }
 
@@ -183,6 +186,21 @@ func (w *icsWorld) apply(op kernel.Op) {
 		w.coord.CommitBlock(w.b)
 		w.aggOn = on
 		w.rec.Logf("aggregate module enabled=%v", on)
+	case "destroy":
+		// the pair's token contract ceases to exist (account deleted, as the repository's own tests do to
+		// model a self-destruct); the next conversion attempt must clean the pair up and move nothing
+		p, ok := w.pair()
+		if !w.registered || w.destroyed || !ok {
+			return
+		}
+		if err := w.bApp.EvmKeeper.DeleteAccount(w.b.GetContext(), common.HexToAddress(p.ERC20Address)); err != nil {
+			w.rec.Logf("destroy failed: %v", err)
+			return
+		}
+		w.coord.CommitBlock(w.b)
+		w.destroyed = true
+		w.rec.Fault("exec.token_selfdestruct")
+		w.rec.Logf("pair contract destroyed")
 	case "back":
 		w.back(op)
 	}
@@ -291,6 +309,13 @@ func (w *icsWorld) receive(packet channeltypes.Packet, amt sdk.Int, kind string,
 	_ = w.path.EndpointA.UpdateClient()
 	w.fix()
 	postV, postM, postT := w.balances(who)
+	if w.destroyed {
+		if _, still := w.pair(); !still {
+			// the conversion attempt removed the pair of the vanished contract
+			w.rec.Probe("ics20.cleanup_selfdestructed")
+			w.registered, w.destroyed = false, false
+		}
+	}
 	stored, found := w.bApp.IBCKeeper.ChannelKeeper.GetPacketAcknowledgement(w.b.GetContext(), packet.GetDestPort(), packet.GetDestChannel(), packet.GetSequence())
 	w.rec.Sched(fmt.Sprintf("recv:%s:reg=%v:on=%v:agg=%v:ack=%v", kind, w.registered, w.pairOn, w.aggOn, wantAck != nil && wantAck.Success()))
 	w.rec.Probe("ics20.recv." + kind)
